@@ -11,17 +11,19 @@ namespace C03
 /-- the emitted body of any parsed function is the structural flattening of its tree view:
     block structure, block types, branch depths and every leaf operator (name and immediates
     unchanged, entity operands through the id→index maps) -/
-theorem emitted_body_is_flatten (m : IdMaps) (seqs : List PSeq) (entry : Nat) (ty : SeqTy)
-    (t : TL SeqTy BInstr) (he : (PSeqs.toArena seqs).get? entry = some (ty, t.toList))
-    (hv : ViewL (PSeqs.toArena seqs) t) (ops : List Op) (hf : flattenL m [entry] t = some ops) :
-    ∃ n, ∀ fuel, n ≤ fuel → emitBodyFuel m (PSeqs.toArena seqs) fuel entry = some (ops ++ [⟨"End", []⟩]) :=
-  emitBody_eq_flatten m _ entry ty t he hv ops hf
+theorem emitted_body_is_flatten (m : IdMaps) (seqs : List PSeq) (entry : Nat) (ty : LSeqTy)
+    (t : TL LSeqTy LInstr) (he : (PSeqs.toArena seqs).get? entry = some (ty, t.toList))
+    (hv : ViewL (PSeqs.toArena seqs) t) (ops : List (Nat × Op)) (hf : flattenL m [entry] t = some ops) :
+    ∃ n, ∀ fuel, n ≤ fuel → (emitBodyFuel m (PSeqs.toArena seqs) fuel entry).map (·.1) =
+      some (ops.map (·.2) ++ [⟨"End", []⟩]) := by
+  obtain ⟨n, hn⟩ := emitBody_eq_flatten m _ entry ty t he hv ops hf
+  exact ⟨n, fun fuel hf => by rw [hn fuel hf]; simp⟩
 
 /-- a leaf operator is emitted with its name and every non-entity immediate untouched -/
-theorem leaf_name_and_immediates_kept (m : IdMaps) (ctx : List Nat) (op : Op) (ops : List Op)
-    (h : leafOps m ctx (.leaf op) = some ops) :
-    ∃ args, ops = [⟨op.name, args⟩] ∧ mapArgs m op.args = some args := by
-  simp only [leafOps, Option.map_eq_some_iff] at h
+theorem leaf_name_and_immediates_kept (m : IdMaps) (ctx : List Nat) (op o : Op)
+    (h : emitPlain m ctx (.leaf op) = some o) :
+    ∃ args, o = ⟨op.name, args⟩ ∧ mapArgs m op.args = some args := by
+  simp only [emitPlain, Option.map_eq_some_iff] at h
   obtain ⟨a, ha, rfl⟩ := h
   exact ⟨a, rfl, ha⟩
 
